@@ -525,3 +525,284 @@ Proof.
     reflexivity.
   - destruct Ho.
 Qed.
+
+(* ---- AutoSaveIndex = false and SaveIndex ---- *)
+Section AutoSave.
+Variable content : node -> list node.
+Variable isman : node -> bool.
+Variable rank : node -> nat.
+Hypothesis content_isman : forall p, content p <> [] -> isman p = true.
+Hypothesis rank_dec : forall p c, In c (content p) -> rank c < rank p.
+
+(* the part of the state Predecessors, Exists and the resolver depend on *)
+Definition core (s : ostore) := (o_blobs s, o_bydigest s, o_tagged s, o_graph s).
+(* J without "index.json is up to date" *)
+Definition Jc (s : ostore) : Prop := J content isman (osave s).
+
+Lemma J_Jc s : J content isman s -> Jc s.
+Proof.
+  intros [H1 H2 H3 H4 H5 H6]. constructor; simpl; auto. apply save_sync. exact H5.
+Qed.
+
+Lemma Jc_core s s' : core s = core s' -> Jc s -> Jc s'.
+Proof.
+  unfold core, Jc, osave. intro E. inversion E as [[E1 E2 E3 E4]]. rewrite E1, E2, E3, E4. auto.
+Qed.
+
+Lemma Jc_synced_J s : Jc s -> synced_b s = true -> J content isman s.
+Proof.
+  intros [H1 H2 H3 H4 H5 H6] Hs. simpl in *. constructor; auto.
+  unfold synced_b in Hs. apply andb_true_iff in Hs. destruct Hs as [Ha Hb].
+  rewrite forallb_forall in Ha, Hb. intro p. split.
+  - intro Hp. specialize (Ha p Hp). apply orb_true_iff in Ha.
+    destruct Ha as [Ha|Ha]; apply smem_In in Ha; auto.
+  - intro Hp. apply smem_In. apply Hb. apply in_app_iff. exact Hp.
+Qed.
+
+(* except for a reopen, a step does not read index.json *)
+Lemma ostep_core_indep fuel s o :
+  match o with PReopen => False | _ => True end ->
+  core (fst (ostep true true true content isman fuel (osave s) o)) =
+  core (fst (ostep true true true content isman fuel s o)) /\
+  snd (ostep true true true content isman fuel (osave s) o) =
+  snd (ostep true true true content isman fuel s o).
+Proof.
+  intro Ho. destruct o; cbn [ostep]; simpl o_blobs; simpl o_bydigest; simpl o_tagged; simpl o_graph.
+  - destruct (smem n (o_blobs s)); [split; reflexivity|]. destruct (isman n); split; reflexivity.
+  - destruct (smem n (o_blobs s)); split; reflexivity.
+  - split; reflexivity.
+  - destruct (remove (o_graph s) n) as [g' dang].
+    match goal with |- context [if ?c then _ else _] => destruct c end; split; reflexivity.
+  - unfold o_sok. simpl o_blobs.
+    destruct (load content (fun x => negb (isman x) || smem x (o_blobs s)) fuel (o_tagged s ++ kept)) as [g' ok].
+    destruct ok; split; reflexivity.
+  - destruct Ho.
+  - unfold o_sok. simpl o_blobs.
+    match goal with |- context [forallb ?f ?l] => destruct (forallb f l) end; [|split; reflexivity].
+    destruct (load content (fun x => negb (isman x) || smem x (o_blobs s)) fuel (o_tagged s ++ roots)) as [g' ok].
+    destruct ok; split; reflexivity.
+Qed.
+
+Lemma ostep_Jc_nonreopen fuel s o :
+  match o with PReopen => False | _ => True end ->
+  Jc s -> Jc (fst (ostep true true true content isman fuel s o)).
+Proof.
+  intros Ho HJ. destruct (ostep_core_indep fuel s o Ho) as [Hc _].
+  apply (Jc_core (fst (ostep true true true content isman fuel (osave s) o))); [exact Hc|].
+  apply J_Jc, (ostep_J content isman rank content_isman rank_dec), HJ.
+Qed.
+
+Lemma astep_Jc fuel a o :
+  Jc (a_s a) -> snd (astep content isman fuel a o) = true ->
+  Jc (a_s (fst (astep content isman fuel a o))).
+Proof.
+  intros HJ Hok. destruct o as [op|v|]; cbn [astep] in *.
+  - destruct (ostep true true true content isman fuel (a_s a) op) as [s' ok] eqn:E.
+    assert (s' = fst (ostep true true true content isman fuel (a_s a) op)) as Es by (rewrite E; reflexivity).
+    assert (match op with PReopen => False | _ => True end -> Jc s') as Hnr.
+    { intro Ho. rewrite Es. apply ostep_Jc_nonreopen; auto. }
+    destruct op; cbn [fst snd a_s] in *;
+      try (specialize (Hnr I); destruct (a_auto a); [exact Hnr | apply (Jc_core s'); [reflexivity | exact Hnr]]).
+    + (* Reopen of a saved index *)
+      apply andb_true_iff in Hok. destruct Hok as [_ Hs].
+      rewrite Es. apply J_Jc, (ostep_J content isman rank content_isman rank_dec).
+      apply Jc_synced_J; auto.
+  - exact HJ.
+  - cbn [fst a_s]. apply (Jc_core (a_s a)); [reflexivity | exact HJ].
+Qed.
+
+Lemma arun_Jc fuel ops : forall a,
+  Jc (a_s a) -> snd (arun content isman fuel a ops) = true ->
+  Jc (a_s (fst (arun content isman fuel a ops))).
+Proof.
+  induction ops as [|o r IH]; intros a HJ Hok; simpl in *; auto.
+  destruct (astep content isman fuel a o) as [a1 ok1] eqn:E1.
+  destruct (arun content isman fuel a1 r) as [a2 ok2] eqn:E2.
+  simpl in *. apply andb_true_iff in Hok. destruct Hok as [-> ->].
+  assert (Jc (a_s a1)) as H1.
+  { pose proof (astep_Jc fuel a o HJ) as H. rewrite E1 in H. apply H. reflexivity. }
+  specialize (IH a1 H1). rewrite E2 in IH. apply IH. reflexivity.
+Qed.
+
+Lemma autosave_history_exact fuel ops n :
+  let r := arun content isman fuel empty_astore ops in
+  snd r = true ->
+  NoDup (predecessors (o_graph (a_s (fst r))) n) /\
+  forall p, In p (predecessors (o_graph (a_s (fst r))) n) <->
+            In p (o_blobs (a_s (fst r))) /\ In n (content p).
+Proof.
+  intros r Hok.
+  assert (Jc (a_s (fst r))) as HJ.
+  { apply arun_Jc; auto. apply J_Jc. apply J_empty. }
+  apply (J_exact content isman content_isman (osave (a_s (fst r))) HJ n).
+Qed.
+End AutoSave.
+
+(* reopening an index that was not saved loses what was pushed since (documented: the caller
+   must call SaveIndex) -- why the theorem needs [snd r = true] *)
+Lemma autosave_unsaved_reopen_refuted :
+  exists content isman fuel ops n p,
+    (forall q, content q <> [] -> isman q = true) /\
+    let r := arun content isman fuel empty_astore ops in
+    snd r = false /\ In p (o_blobs (a_s (fst r))) /\ In n (content p) /\
+    ~ In p (predecessors (o_graph (a_s (fst r))) n).
+Proof.
+  exists (ctab pf_ct), pf_isman, 50, [ASetAuto false; AOp (PPush 0%N); AOp (PPush 2%N); AOp PReopen], 0%N, 2%N.
+  split; [exact pf_content_isman|].
+  vm_compute. repeat split; auto.
+Qed.
+
+Lemma autosave_saved_reopen_example :
+  let r := arun (ctab pf_ct) pf_isman 50 empty_astore
+             [ASetAuto false; AOp (PPush 0%N); AOp (PPush 2%N); ASaveIndex; AOp PReopen] in
+  snd r = true /\ predecessors (o_graph (a_s (fst r))) 0%N = [2%N].
+Proof. vm_compute. repeat split. Qed.
+
+(* ---- fuel: whole histories complete (not only single steps) ---- *)
+Section HistoryFuel.
+Variable content : node -> list node.
+Variable isman : node -> bool.
+Variable U : list node.
+Hypothesis closed : forall u, In u U -> forall c, In c (content u) -> In c U.
+
+Definition ents (s : ostore) : Prop :=
+  forall x, In x (o_tagged s) \/ In x (o_bydigest s) \/ In x (o_dtagged s) \/ In x (o_dbydigest s) \/
+            In x (g_nodes (o_graph s)) -> In x U.
+Definition op_in (o : oop) : Prop :=
+  match o with
+  | PPush n | PTag n | PUntag n | PDelete n => In n U
+  | PGC kept => forall x, In x kept -> In x U
+  | PReopen => True
+  | PForeign _ => False
+  end.
+
+Lemma pre_in_U sok r x : In r U -> pre content sok r x -> In x U.
+Proof. intros Hr H. induction H; auto. eapply closed; eauto. Qed.
+
+Lemma remove_dang_nodes g n d : In d (snd (remove g n)) -> In d (g_nodes g).
+Proof.
+  unfold remove, remove_ord.
+  destruct (fold_left (rm_step (g_nodes g) n) (getd (g_succs g) n) (g_preds g, [])) as [pm dang] eqn:E.
+  simpl. intro H.
+  assert (In d (snd (fold_left (rm_step (g_nodes g) n) (getd (g_succs g) n) (g_preds g, [])))) as H'
+    by (rewrite E; exact H).
+  apply rm_fold_dang in H'. destruct H' as [[]|(_ & _ & Hn)]. exact Hn.
+Qed.
+
+Lemma load_nodes_in_U sok fuel roots g' :
+  (forall r, In r roots -> In r U) -> load content sok fuel roots = (g', true) ->
+  forall x, In x (g_nodes g') -> In x U.
+Proof.
+  intros Hr HL x Hx. destruct (load_exact content sok fuel roots g' HL) as [Hn _].
+  apply Hn in Hx. destruct Hx as (r & Hin & Hpre & _). apply (pre_in_U sok r x); auto.
+Qed.
+
+Lemma ostep_term fuel s o :
+  1 + pot content U [] < fuel -> ents s -> op_in o ->
+  snd (ostep true true true content isman fuel s o) = true /\
+  ents (fst (ostep true true true content isman fuel s o)).
+Proof.
+  intros Hf He Ho. unfold ents in *.
+  assert (forall x, In x (o_tagged s) -> In x U) as E1 by (intros; apply He; auto).
+  assert (forall x, In x (o_bydigest s) -> In x U) as E2 by (intros; apply He; auto).
+  assert (forall x, In x (o_dtagged s) -> In x U) as E3 by (intros; apply He; auto).
+  assert (forall x, In x (o_dbydigest s) -> In x U) as E4 by (intros; apply He; auto 6).
+  assert (forall x, In x (g_nodes (o_graph s)) -> In x U) as E5 by (intros; apply He; auto 6).
+  destruct o; cbn [ostep]; simpl in Ho.
+  - destruct (smem n (o_blobs s)); [split; auto|].
+    destruct (isman n); simpl; (split; [reflexivity|]); intros x Hx;
+      repeat rewrite In_sadd in Hx; intuition (subst; auto).
+  - destruct (smem n (o_blobs s)); simpl; (split; [reflexivity|]); auto.
+    intros x Hx. repeat rewrite In_sadd in Hx. intuition (subst; auto).
+  - simpl. split; [reflexivity|]. intros x Hx. repeat rewrite In_sdel in Hx. intuition auto.
+  - destruct (remove (o_graph s) n) as [g' dang] eqn:ER.
+    assert (forall d, In d dang -> In d U) as Hd.
+    { intros d Hdd. apply He. right. right. right. right.
+      apply (remove_dang_nodes (o_graph s) n). rewrite ER. exact Hdd. }
+    assert (forall x, In x (g_nodes g') -> In x U) as Hg.
+    { intros x Hx. apply He. right. right. right. right.
+      assert (g' = fst (remove (o_graph s) n)) as -> by (rewrite ER; reflexivity).
+      apply remove_ord_nodes in Hx. tauto. }
+    match goal with |- context [if ?c then _ else _] => destruct c end; simpl;
+      (split; [reflexivity|]); intros x Hx;
+      repeat rewrite in_app_iff in Hx; repeat rewrite filter_In in Hx; repeat rewrite In_sdel in Hx;
+      intuition auto.
+  - assert (forall r, In r (o_tagged s ++ kept) -> In r U) as Hr.
+    { intros r Hr. apply in_app_iff in Hr. destruct Hr; auto. }
+    pose proof (load_fuel_ok content (o_sok isman s) U fuel _ closed Hf Hr) as Hok.
+    destruct (load content (o_sok isman s) fuel (o_tagged s ++ kept)) as [g' ok] eqn:E.
+    simpl in Hok. subst ok. simpl. split; [reflexivity|].
+    pose proof (load_nodes_in_U (o_sok isman s) fuel _ g' Hr E) as Hg.
+    intros x Hx. repeat rewrite in_app_iff in Hx. repeat rewrite filter_In in Hx. intuition auto.
+  - assert (forall r, In r (o_dtagged s ++ o_dbydigest s) -> In r U) as Hr.
+    { intros r Hr. apply in_app_iff in Hr. destruct Hr; auto. }
+    pose proof (load_fuel_ok content (o_sok isman s) U fuel _ closed Hf Hr) as Hok.
+    destruct (load content (o_sok isman s) fuel (o_dtagged s ++ o_dbydigest s)) as [g' ok] eqn:E.
+    simpl in Hok. subst ok. simpl. split; [reflexivity|].
+    pose proof (load_nodes_in_U (o_sok isman s) fuel _ g' Hr E) as Hg.
+    intros x Hx. repeat rewrite in_app_iff in Hx. intuition auto.
+  - destruct Ho.
+Qed.
+
+Lemma orun_term fuel ops : forall s,
+  1 + pot content U [] < fuel -> ents s -> Forall op_in ops ->
+  snd (orun true true true content isman fuel s ops) = true.
+Proof.
+  induction ops as [|o r IH]; intros s Hf He Ho; simpl; auto.
+  inversion Ho; subst.
+  destruct (ostep_term fuel s o Hf He H1) as [Hok He'].
+  destruct (ostep true true true content isman fuel s o) as [s1 ok1]. simpl in *. subst ok1.
+  specialize (IH s1 Hf He' H2).
+  destruct (orun true true true content isman fuel s1 r) as [s2 ok2]. simpl in *. subst. reflexivity.
+Qed.
+
+Lemma store_history_terminates fuel ops :
+  1 + pot content U [] < fuel -> Forall op_in ops ->
+  snd (orun true true true content isman fuel empty_store ops) = true.
+Proof. intros Hf Ho. apply orun_term; auto. intros x Hx. simpl in Hx. tauto. Qed.
+End HistoryFuel.
+
+(* ---- refinement of the abstract specification, and the name layer ---- *)
+Section Spec.
+Variable content : node -> list node.
+Variable isman : node -> bool.
+Variable rank : node -> nat.
+Hypothesis content_isman : forall p, content p <> [] -> isman p = true.
+Hypothesis rank_dec : forall p c, In c (content p) -> rank c < rank p.
+
+Lemma spec_preds_perm (g : graph) (blobs : list node) n :
+  NoDup (predecessors g n) ->
+  (forall p, In p (predecessors g n) <-> In p blobs /\ In n (content p)) ->
+  Permutation (predecessors g n) (spec_preds content blobs n).
+Proof.
+  intros Hd Hm. apply NoDup_Permutation; auto.
+  - unfold spec_preds. apply NoDup_filter, NoDup_nodup.
+  - intro p. rewrite Hm. unfold spec_preds. rewrite filter_In, nodup_In, smem_In. tauto.
+Qed.
+
+Lemma autosave_refines_spec fuel ops n :
+  let r := arun content isman fuel empty_astore ops in
+  snd r = true ->
+  Permutation (predecessors (o_graph (a_s (fst r))) n)
+              (spec_preds content (o_blobs (a_s (fst r))) n).
+Proof.
+  intros r Hok.
+  destruct (autosave_history_exact content isman rank content_isman rank_dec fuel ops n Hok) as [Hd Hm].
+  apply spec_preds_perm; auto.
+Qed.
+
+Lemma names_refines_spec fuel ops n :
+  let r := nrun content isman fuel ops in
+  snd r = true ->
+  Permutation (predecessors (o_graph (a_s (fst r))) n)
+              (spec_preds content (o_blobs (a_s (fst r))) n).
+Proof. intros r Hok. apply autosave_refines_spec. exact Hok. Qed.
+End Spec.
+
+(* a name moving from one manifest to another: the first one is no longer a GC root *)
+Lemma names_example :
+  let r := nrun (ctab pf_ct) pf_isman 50
+             [NOp (AOp (PPush 0%N)); NOp (AOp (PPush 2%N)); NOp (AOp (PPush 3%N));
+              NTag 2%N 7%N; NTag 3%N 7%N; NOp (AOp (PGC []))] in
+  snd r = true /\ o_tagged (a_s (fst r)) = [3%N] /\ predecessors (o_graph (a_s (fst r))) 0%N = [2%N].
+Proof. vm_compute. repeat split. Qed.
